@@ -19,7 +19,9 @@ func main() {
 	}
 	switch os.Args[1] {
 	case "run":
-		run(os.Args[2:])
+		run(os.Args[2:], false)
+	case "lab":
+		run(os.Args[2:], true)
 	case "plan":
 		plan(os.Args[2:])
 	default:
@@ -33,6 +35,10 @@ func plan(args []string) {
 	prop := fs.String("prop", "", "property")
 	tier := fs.String("tier", "quick", "tier")
 	fs.Parse(args)
+	if l := sim.Labs[*prop]; l != nil {
+		json.NewEncoder(os.Stdout).Encode(map[string]int{"cases": l.Batches[*tier], "blocks": l.Inputs[*tier]})
+		return
+	}
 	d := sim.Props[*prop]
 	if d == nil {
 		fmt.Println("{}")
@@ -41,7 +47,7 @@ func plan(args []string) {
 	json.NewEncoder(os.Stdout).Encode(map[string]int{"cases": d.Cases[*tier], "blocks": d.Blocks[*tier]})
 }
 
-func run(args []string) {
+func run(args []string, lab bool) {
 	fs := flag.NewFlagSet("run", flag.ExitOnError)
 	prop := fs.String("prop", "C02", "property")
 	tier := fs.String("tier", "quick", "tier")
@@ -55,8 +61,12 @@ func run(args []string) {
 	out := fs.String("out", "", "output jsonl (default stdout)")
 	fs.Parse(args)
 	d := sim.Props[*prop]
-	if d == nil {
+	if d == nil && !lab {
 		fmt.Fprintln(os.Stderr, "unknown property", *prop)
+		os.Exit(2)
+	}
+	if lab && sim.Labs[*prop] == nil {
+		fmt.Fprintln(os.Stderr, "unknown lab property", *prop)
 		os.Exit(2)
 	}
 	if *trace != "" {
@@ -91,13 +101,17 @@ func run(args []string) {
 		list = []int{*only}
 	}
 	for _, i := range list {
-		b := d.Blocks[*tier]
-		if *blocks > 0 {
-			b = *blocks
-		}
-		spec := sim.CaseSpec{Prop: *prop, Tier: *tier, Seed: *seed, Case: i, Blocks: b}
+		var res sim.CaseResult
 		fmt.Fprintf(os.Stderr, "CASE-START %s seed=%d case=%d\n", *prop, *seed, i)
-		res := sim.RunCase(spec)
+		if lab {
+			res = sim.RunLabBatch(sim.CaseSpec{Prop: *prop, Tier: *tier, Seed: *seed, Case: i})
+		} else {
+			b := d.Blocks[*tier]
+			if *blocks > 0 {
+				b = *blocks
+			}
+			res = sim.RunCase(sim.CaseSpec{Prop: *prop, Tier: *tier, Seed: *seed, Case: i, Blocks: b})
+		}
 		enc.Encode(res)
 		fmt.Fprintf(os.Stderr, "CASE-END %s case=%d blocks=%d dead=%v viol=%d\n", *prop, i, res.BlocksRun, res.Dead, len(res.Violations))
 	}
